@@ -53,7 +53,8 @@ def build_fs(rng, scratch):
     (root / "b").mkdir()
     outside.mkdir()
     files = {}
-    for rel in ["a/img 1.png", "a/sub/data#1.txt", "b/file%20x.bin", "top.txt", "a/é.svg"]:
+    # (names with ';' and '=': path parameters of old URL grammars; "scan.jpg;1" beside "scan.jpg" are two files)
+    for rel in ["a/img 1.png", "a/sub/data#1.txt", "b/file%20x.bin", "top.txt", "a/é.svg", "a/scan.jpg;1", "a/scan.jpg", "a/sub/notes;v=2.txt"]:
         data = bytes(rng.randrange(256) for _ in range(rng.randint(1, 200)))
         (root / rel).write_bytes(data)
         files[rel] = data
@@ -68,7 +69,7 @@ def build_fs(rng, scratch):
     return root, outside, files
 
 
-URLS = ["img%201.png", "img 1.png", "./img%201.png", "sub/data%231.txt", "sub/data#1.txt", "../b/file%2520x.bin", "../top.txt", "/top.txt", "/a/img%201.png",
+URLS = ["scan.jpg;1", "scan.jpg", "./scan.jpg;1?x#y", "scan.jpg%3B1", "sub/notes;v=2.txt", "sub/notes;v=3.txt", "scan.jpg;2", "img%201.png", "img 1.png", "./img%201.png", "sub/data%231.txt", "sub/data#1.txt", "../b/file%2520x.bin", "../top.txt", "/top.txt", "/a/img%201.png",
         "link-inside.txt", "link-outside.txt", "../b/dir-outside/secret.txt", "../../outside/secret.txt", "../../sibling.txt", "/../sibling.txt",
         "%2e%2e/%2e%2e/outside/secret.txt", "../../src%20root-private/secret.txt", "/../src%20root-private/secret.txt", "missing.png", "sub/", "sub", ".", "", "#frag", "img%201.png#frag", "img%201.png?q=1", "http://example.com/x.png",
         "//example.com/x.png", "mailto:a@b", "data:text/plain,hi", "%C3%A9.svg", "é.svg", "sub/../img%201.png", "/a/../top.txt", "a%00b", "recipe.md", "../a/recipe.md#top"]
